@@ -71,6 +71,31 @@ class Inst:
         return hash(('inst', id(self.cls)))
 
 
+class Obj:
+    """A mutable heap object with known attributes (identity matters; deep-copied
+    with the state, aliasing preserved)."""
+    def __init__(self, label, attrs=None, cls=None):
+        self.label, self.attrs, self.cls = label, dict(attrs or {}), cls
+
+    def __repr__(self):
+        return 'Obj(%s)' % self.label
+
+
+class Iter:
+    """A first-class iterator over known items (iter(list)); shared by `for` and next()."""
+    def __init__(self, items, pos=0):
+        self.items, self.pos = list(items), pos
+
+    def __repr__(self):
+        return 'Iter(%r@%d)' % (self.items, self.pos)
+
+    def take(self):
+        if self.pos < len(self.items):
+            self.pos += 1
+            return self.items[self.pos - 1]
+        return STOP
+
+
 for _k in (M.ClassInfo, M.FunctionInfo, M.ModuleInfo, M.External):
     _k.__deepcopy__ = lambda self, memo: self
 
@@ -109,13 +134,19 @@ class State:
         return (self.trace, _freeze(self.env), self.flags)
 
 
-def _freeze(v):
+def _freeze(v, _depth=0):
     if isinstance(v, dict):
-        return tuple(sorted(((str(k), _freeze(x)) for k, x in v.items())))
+        return tuple(sorted(((str(k), _freeze(x, _depth)) for k, x in v.items())))
     if isinstance(v, (list, tuple)):
-        return (type(v).__name__,) + tuple(_freeze(x) for x in v)
+        return (type(v).__name__,) + tuple(_freeze(x, _depth) for x in v)
     if isinstance(v, (set, frozenset)):
         return ('set',) + tuple(sorted(map(repr, v)))
+    if isinstance(v, Iter):
+        return ('iter', v.pos, _freeze(v.items))
+    if isinstance(v, Obj):
+        if _depth > 3:
+            return ('obj', v.label)
+        return ('obj', v.label, tuple(sorted((str(k), _freeze(x, _depth + 1)) for k, x in v.attrs.items())))
     try:
         hash(v)
         return v if not isinstance(v, float) else repr(v)
@@ -152,7 +183,10 @@ STOP = Sym('<<stop-iteration>>')
 
 class Interp:
     def __init__(self, model=None, scope=None, hooks=None, max_iter=1,
-                 max_states=40000, exc_edges=True, record_conds=False, inline=0):
+                 max_states=40000, exc_edges=True, record_conds=False, inline=0, precise_exc=False, heap=False):
+        self.heap = heap                # instantiating a repository class gives a mutable Obj instead of an Inst
+        self.precise_exc = precise_exc  # exceptions only where one can occur: failed lookups on known containers, unknown calls
+        self._maythrow = 0
         self.inline_depth = inline      # how deep helper calls are interpreted (0 = never)
         self._inline_stack = []
         self.model, self.scope = model, scope
@@ -200,6 +234,11 @@ class Interp:
             for s in cur:
                 r = self.stmt(st_node, s)
                 for kind, lst in r.items():
+                    if self.precise_exc:
+                        pend = [x for x in lst if '__exc' in x[0].env]
+                        if pend:
+                            lst = [x for x in lst if '__exc' not in x[0].env]
+                            outs.setdefault('raise', []).extend((x[0], x[0].env.pop('__exc')) for x in pend)
                     if kind == 'fall':
                         nxt.extend(x[0] for x in lst)
                     else:
@@ -258,6 +297,21 @@ class Interp:
     def st_Delete(self, n, s):
         for t in n.targets:
             txt = _text(t)
+            if isinstance(t, ast.Subscript):
+                base = self.ev(t.value, s)
+                if isinstance(base, (list, dict)):
+                    try:
+                        if isinstance(t.slice, ast.Slice):
+                            lo, hi, stp = [self.ev(x, s) if x is not None else None for x in (t.slice.lower, t.slice.upper, t.slice.step)]
+                            if all(x is None or isinstance(x, int) for x in (lo, hi, stp)):
+                                del base[lo:hi:stp]
+                        else:
+                            idx = self.ev(t.slice, s)
+                            if is_concrete(idx):
+                                del base[idx]
+                    except (KeyError, IndexError) as e:
+                        if self.precise_exc:
+                            s.env['__exc'] = type(e).__name__
             s.env.pop(txt, None)
             self.emit(s, ('del', txt))
             self._invalidate(txt, s)
@@ -329,7 +383,14 @@ class Interp:
             s.env[txt] = v
             self._invalidate(txt, s)
         elif isinstance(t, ast.Attribute):
-            s.env[txt] = v
+            base = None
+            if txt not in s.env:
+                for _s, b in self.expr(t.value, s, fork=False):
+                    base = b
+            if isinstance(base, Obj):
+                base.attrs[t.attr] = v
+            else:
+                s.env[txt] = v
             self._invalidate(txt, s)
             if not quiet:
                 self.emit(s, ('setattr', txt, v if is_concrete(v) or isinstance(v, (Inst, Sym)) else _text(getattr(node, 'value', t))))
@@ -342,7 +403,13 @@ class Interp:
                 for _s, i in self.expr(t.slice, s, fork=False):
                     idx = i
             stored = False
-            if isinstance(base, (list, dict)) and idx is not None and is_concrete(idx):
+            if isinstance(base, Obj) and isinstance(base.attrs.get('__items'), dict) and idx is not None and is_concrete(idx):
+                try:
+                    base.attrs['__items'][idx] = v
+                    stored = True
+                except TypeError:
+                    pass
+            elif isinstance(base, (list, dict)) and idx is not None and is_concrete(idx):
                 try:
                     base[idx] = v
                     stored = True
@@ -391,7 +458,13 @@ class Interp:
 
     def st_Raise(self, n, s):
         self.emit(s, ('raise', _text(n.exc) if n.exc else None, n.lineno))
-        return {'raise': [(s, None)]}
+        name = None
+        if n.exc is not None:
+            e = n.exc.func if isinstance(n.exc, ast.Call) else n.exc
+            name = _text(e).split('.')[-1]
+        elif '__handling' in s.env:
+            name = s.env['__handling']
+        return {'raise': [(s, name)]}
 
     def st_Break(self, n, s):
         return {'break': [(s, None)]}
@@ -428,6 +501,8 @@ class Interp:
         outs = []
         res = {}
         for s2, it in self.expr(n.iter, s):
+            if isinstance(it, Iter):
+                s2.env['__iter@%d' % n.lineno] = it
             r = self._loop(n, s2, it)
             for k, lst in r.items():
                 res.setdefault(k, []).extend(lst)
@@ -457,7 +532,10 @@ class Interp:
                         else:
                             exits.append(st)
                         continue
-                    item = self.h.iter_item(self, n, k, st)
+                    if isinstance(iterable, Iter):
+                        item = st.env['__iter@%d' % n.lineno].take()
+                    else:
+                        item = self.h.iter_item(self, n, k, st)
                     if item is STOP:
                         exits.append(st)
                     elif item is not None:
@@ -511,7 +589,93 @@ class Interp:
         outs.setdefault('fall', []).extend((x, None) for x in self._merge(broken))
         return outs
 
+    def _handler_matches(self, h, name):
+        """True / False / None (unknown) - does handler `h` catch exception class `name`."""
+        import builtins
+        if h.type is None:
+            return True
+        if name is None:
+            return None
+        types = [h.type] if not isinstance(h.type, ast.Tuple) else list(h.type.elts)
+        unknown = False
+        for t in types:
+            tn = _text(t).split('.')[-1]
+            if tn == name:
+                return True
+            a, b = getattr(builtins, name, None), getattr(builtins, tn, None)
+            if isinstance(a, type) and isinstance(b, type):
+                if issubclass(a, b):
+                    return True
+            else:
+                unknown = True
+        return None if unknown else False
+
+    def _try_precise(self, n, s):
+        body_out = {}
+        pending = []          # (state, exception name or None)
+        cur = [s]
+        for st_node in n.body:
+            nxt = []
+            for st in cur:
+                pre = st.fork() if n.handlers else None
+                c0 = self._maythrow
+                r = self.block([st_node], [st])
+                if pre is not None and self._maythrow > c0:
+                    pending.append((pre, None))       # an unknown call / lookup may raise anything
+                for kind, lst in r.items():
+                    if kind == 'fall':
+                        nxt.extend(x[0] for x in lst)
+                    elif kind == 'raise':
+                        pending.extend(lst)
+                    else:
+                        body_out.setdefault(kind, []).extend(lst)
+            cur = self._merge(nxt)
+            if not cur:
+                break
+        normal = cur
+        for st, name in pending:
+            caught = False
+            for h in n.handlers:
+                mt = self._handler_matches(h, name)
+                if mt is False:
+                    continue
+                st2 = st.fork() if mt is None else st
+                self.emit(st2, ('except', _text(h.type) if h.type else 'bare', h.lineno))
+                if h.name:
+                    st2.env[h.name] = Sym('exc')
+                st2.env['__handling'] = name
+                res = self.block(h.body, [st2])
+                for kind, lst in res.items():
+                    for x in lst:
+                        x[0].env.pop('__handling', None)
+                    body_out.setdefault(kind, []).extend(lst)
+                if mt is True:
+                    caught = True
+                    break
+            if not caught:
+                body_out.setdefault('raise', []).append((st, name))
+        if n.orelse and normal:
+            res = self.block(n.orelse, normal)
+            for kind, lst in res.items():
+                body_out.setdefault(kind, []).extend(lst)
+        else:
+            body_out.setdefault('fall', []).extend((x, None) for x in normal)
+        if n.finalbody:
+            final = {}
+            for kind, lst in body_out.items():
+                for st, v in lst:
+                    res = self.block(n.finalbody, [st])
+                    for k2, l2 in res.items():
+                        if k2 == 'fall':
+                            final.setdefault(kind, []).extend((x[0], v) for x in l2)
+                        else:
+                            final.setdefault(k2, []).extend(l2)
+            body_out = final
+        return body_out
+
     def st_Try(self, n, s):
+        if self.precise_exc:
+            return self._try_precise(n, s)
         outs = {}
         # body with snapshots for exception edges
         snaps = []
@@ -586,6 +750,11 @@ class Interp:
                 for x in ast.walk(node):
                     if isinstance(x, ast.FunctionDef) and x.name == f.id and x is not node:
                         return x, False, None
+            if isinstance(cur, Sym) and cur.label.startswith('method:') and self.model is not None:
+                cls = getattr(self.h, 'cls', None) or getattr(fn, 'cls', None)
+                mm = self.model.find_method(cls, cur.label[7:]) if cls is not None else None
+                if mm is not None:
+                    return mm.node, not any(d == 'staticmethod' for d in mm.decorators), mm
             if f.id in s.env or self.model is None or fn is None:
                 return None
             r = self.model.resolve_name(fn, f.id)
@@ -614,6 +783,9 @@ class Interp:
         if res is None:
             return None
         node, bound, info = res
+        flt = getattr(self.h, 'should_inline', None)
+        if flt is not None and not flt(fname, node, info):
+            return None
         if node in self._inline_stack or any(isinstance(x, (ast.Yield, ast.YieldFrom)) for x in M.walk_no_nested(node)):
             return None
         if any(isinstance(k.arg, type(None)) for k in call.keywords) or any(isinstance(a, ast.Starred) for a in call.args):
@@ -653,6 +825,10 @@ class Interp:
                 for k, v in s.env.items():
                     cs.env.setdefault(k, v)
         cs.env.update(local)
+        ckey = '__caller@%d' % len(self._inline_stack)
+        cs.env[ckey] = s.env          # travels (and is forked) with the callee state: aliasing with caller locals is kept
+        if bound and 'self' in s.env and 'self' not in local:
+            cs.env['self'] = s.env['self']
         self.emit(cs, ('call', self.canon(fname, s), tuple(_evarg(a, x) for a, x in zip(args, call.args)), call.lineno))
         self.emit(cs, ('enter', self.canon(fname, s), call.lineno))
         saved_scope, saved_cache = self.scope, getattr(self, '_locals_cache', None)
@@ -668,7 +844,8 @@ class Interp:
         results = []
         for kind in ('fall', 'return'):
             for st, v in outs.get(kind, []):
-                ns = State(dict(s.env), st.trace, st.assumed)
+                ns = State(dict(st.env.get(ckey, s.env)), st.trace, st.assumed)
+                st.env.pop(ckey, None)
                 ns.flags = st.flags
                 # write back attribute facts and bookkeeping keys
                 for k in [k for k in ns.env if '.' in k or '[' in k or k.startswith('__')]:
@@ -679,7 +856,7 @@ class Interp:
                         ns.env[k] = val
                 if info is None:
                     for k, val in st.env.items():
-                        if k in s.env and k not in local:
+                        if k in s.env and k not in local and k != 'self':
                             ns.env[k] = val
                 # drop the callee's `return` event of this frame
                 if ns.trace and ns.trace[-1][0] == 'return':
@@ -865,7 +1042,10 @@ class Interp:
         if r is None:
             return TOP
         if isinstance(r, tuple) and r[0] == 'assign':
-            v = self.model.eval_const(r[1], r[2][-1])
+            rhs = r[2][-1]
+            if isinstance(rhs, ast.Call) and _text(rhs) == 'object()':
+                return Sym('sentinel@%d' % rhs.lineno, truthy=True, attrs={'distinct': True})
+            v = self.model.eval_const(r[1], rhs)
             return TOP if M.is_unknown(v) else v
         return r
 
@@ -873,9 +1053,19 @@ class Interp:
         txt = _text(n)
         if txt in s.env:
             return s.env[txt]
+        if isinstance(n.value, ast.Name):
+            o = s.env.get(n.value.id)
+            if isinstance(o, Obj) and n.attr in o.attrs:
+                return o.attrs[n.attr]
         v = self.h.lookup(self, txt, s)
         if v is not None:
             return v
+        if isinstance(n.value, ast.Name) and n.value.id in ('self', 'cls') and self.model is not None:
+            cls = getattr(self.h, 'cls', None) or getattr(self.scope, 'cls', None)
+            if isinstance(cls, M.ClassInfo):
+                mth = self.model.find_method(cls, n.attr)
+                if mth is not None and not (mth.cls is not None and n.attr in mth.cls.properties):
+                    return Sym('method:%s' % n.attr, truthy=True)
         base = self.ev(n.value, s)
         return self.getattr(base, n.attr, n, s)
 
@@ -884,6 +1074,13 @@ class Interp:
         if isinstance(base, Inst) and isinstance(base.cls, M.ClassInfo) and m is not None:
             v = m.class_const(base.cls, attr)
             return TOP if M.is_unknown(v) else v
+        if isinstance(base, Obj):
+            if attr in base.attrs:
+                return base.attrs[attr]
+            if isinstance(base.cls, M.ClassInfo) and m is not None:
+                v = m.class_const(base.cls, attr)
+                return TOP if M.is_unknown(v) else v
+            return TOP
         if isinstance(base, Sym):
             if attr in base.attrs:
                 return base.attrs[attr]
@@ -918,11 +1115,25 @@ class Interp:
                     return base[lo:hi:st]
             return TOP
         idx = self.ev(n.slice, s)
+        if isinstance(base, Obj) and isinstance(base.attrs.get('__items'), dict) and is_concrete(idx):
+            items = base.attrs['__items']
+            try:
+                if idx in items:
+                    return items[idx]
+            except TypeError:
+                pass
+            self._maythrow += 1
+            return TOP
         if isinstance(base, (list, tuple, str, dict)) and is_concrete(idx) and not isinstance(base, M._StringLetters):
             try:
                 return base[idx]
+            except (KeyError, IndexError) as e:
+                if self.precise_exc:
+                    s.env['__exc'] = type(e).__name__
+                return TOP
             except Exception:
                 return TOP
+        self._maythrow += 1
         return TOP
 
     def ev_Tuple(self, n, s):
@@ -1089,6 +1300,15 @@ class Interp:
                 return (a is b) == isinstance(op, ast.Is)
             if isinstance(a, (list, dict)) and isinstance(b, (list, dict)):
                 return (a is b) == isinstance(op, ast.Is)      # identity of tracked containers
+            if isinstance(a, Obj) or isinstance(b, Obj):
+                if a is TOP or b is TOP or isinstance(a, Sym) or isinstance(b, Sym):
+                    return None
+                return (a is b) == isinstance(op, ast.Is)
+            if isinstance(a, Sym) and isinstance(b, Sym):
+                if a == b:
+                    return isinstance(op, ast.Is)
+                if a.attrs.get('distinct') and b.attrs.get('distinct'):
+                    return isinstance(op, ast.IsNot)
             return None
         if isinstance(op, (ast.In, ast.NotIn)):
             if isinstance(b, M._StringLetters):
@@ -1118,6 +1338,17 @@ class Interp:
 
     def ev_Call(self, n, s):
         fname = self.canon(_text(n.func), s)
+        if isinstance(n.func, ast.Name):
+            cur = s.env.get(n.func.id)
+            if isinstance(cur, Sym) and cur.label.startswith('method:'):
+                fname = 'self.' + cur.label[7:]      # a local bound to one of our own methods
+        # arguments first: an inlined helper call among them replaces the state's objects by copies
+        args = [self.ev(a, s) for a in n.args]
+        kwargs = {}
+        for k in n.keywords:
+            v = self.ev(k.value, s)
+            if k.arg is not None:
+                kwargs[k.arg] = v
         # evaluate callee for bound-method detection
         fval = None
         if isinstance(n.func, ast.Attribute):
@@ -1127,12 +1358,6 @@ class Interp:
             fval = self.ev_Name(n.func, s)
         else:
             fval = self.ev(n.func, s)
-        args = [self.ev(a, s) for a in n.args]
-        kwargs = {}
-        for k in n.keywords:
-            v = self.ev(k.value, s)
-            if k.arg is not None:
-                kwargs[k.arg] = v
         self.ncalls = getattr(self, 'ncalls', 0) + 1
         r = self.h.call(self, n, fname, args, kwargs, s)
         self.emit(s, ('call', fname, tuple(_evarg(a, x) for a, x in zip(args, n.args)), n.lineno))
@@ -1150,6 +1375,19 @@ class Interp:
                 st, v = res[0]
                 s.env, s.trace, s.assumed, s.flags = st.env, st.trace, st.assumed, st.flags
                 return v
+        if fname == 'iter' and 'iter' not in s.env and len(args) == 1 and not kwargs:
+            if isinstance(args[0], (list, tuple)):
+                return Iter(args[0])
+            if isinstance(args[0], Iter):
+                return args[0]
+        if fname == 'next' and 'next' not in s.env and args and isinstance(args[0], Iter):
+            item = args[0].take()
+            if item is not STOP:
+                return item
+            if len(args) > 1:
+                return args[1]
+            s.flags = s.flags + (('stop-iteration', n.lineno),)
+            return TOP
         if fname.endswith('stringletters') and not args:
             return M.STRINGLETTERS
         if fval is TOP and isinstance(n.func, ast.Name) and len(args) == 1 and self.model is not None and self.scope is not None:
@@ -1159,6 +1397,8 @@ class Interp:
                 return args[0]
         # model classes -> instances
         if isinstance(fval, M.ClassInfo):
+            if self.heap:
+                return Obj('%s@%d' % (fval.name, n.lineno), {'__args': tuple(args)}, cls=fval)
             return Inst(fval, args)
         if isinstance(fval, tuple) and len(fval) == 3 and fval[0] == 'boundmethod':
             _, recv, meth = fval
@@ -1174,6 +1414,8 @@ class Interp:
                         return b(*args)
                     except Exception:
                         return TOP
+        if not (isinstance(n.func, ast.Attribute) and _text(n.func.value) in _NOTHROW) and fname not in _NOTHROW_CALLS:
+            self._maythrow += 1
         return TOP
 
     def _builtin_method(self, recv, meth, args, kwargs):
@@ -1220,6 +1462,9 @@ class Interp:
             return TOP
         return TOP
 
+
+_NOTHROW = {'log', 'logging', 'status', 'stacklog', 'macrolog', 'tokenlog', 'digestlog', 'grouplog', 'deflog', 'warnings'}
+_NOTHROW_CALLS = {'isinstance', 'issubclass', 'type', 'id', 'len', 'repr', 'str', 'hasattr', 'callable', 'print'}
 
 _PURE = {'len': len, 'int': int, 'str': str, 'bool': bool, 'ord': ord, 'chr': chr,
          'abs': abs, 'min': min, 'max': max, 'list': list, 'tuple': tuple,
